@@ -115,7 +115,7 @@ Last == IF call.then = "none" \/ Again THEN call.name ELSE call.then
 Scalar == Last \in {"size", "join"}
 OneElem == Last \in {"first", "last"}
 \* mapslice: a loop over the binding would see [key, value] pairs, so the input is shown through join
-After(rep) == IF rep = "msvalues" THEN <<Ob([t |-> "filter", e |-> V(A), name |-> "join", args |-> <<Lit(Str(<<44>>))>>])>>
+After(rep) == IF rep \in {"msvalues", "mssize"} THEN <<Ob([t |-> "filter", e |-> V(A), name |-> "join", args |-> <<Lit(Str(<<44>>))>>])>>
               ELSE <<Each(A)>>
 \* p = base | concat: [9]   q = base | concat: [8]   print p, q   (base: a, or a | compact)
 AgainProg(rep) ==
@@ -126,7 +126,7 @@ AgainProg(rep) ==
   IN  <<[t |-> "assign", name |-> BB, e |-> base], [t |-> "assign", name |-> <<112>>, e |-> cat(9)], [t |-> "assign", name |-> <<113>>, e |-> cat(8)],
         show(<<112>>), T(<<124>>), show(<<113>>), T(<<124>>)>>
       \* (a loop over an ordered-map binding would see [key, value] pairs: there the input is shown through join only)
-      \o (IF rep = "msvalues" /\ call.then = "again" THEN <<>> ELSE <<show(BB)>>) \o <<T(<<35>>)>> \o After(rep)
+      \o (IF rep \in {"msvalues", "mssize"} /\ call.then = "again" THEN <<>> ELSE <<show(BB)>>) \o <<T(<<35>>)>> \o After(rep)
 Prog(rep) ==
   IF Again THEN AgainProg(rep) ELSE
   (IF Scalar THEN <<Ob(Piped)>>
@@ -136,7 +136,7 @@ Prog(rep) ==
 
 AllK2(ks) == \A i \in 1..Len(arr) : arr[i].k \in ks
 ReprsFor == {"generic"} \cup (IF ~Reprs THEN {} ELSE
-              {"msvalues"}
+              {"msvalues"} \cup (IF Len(arr) > 0 THEN {"mssize"} ELSE {})
               \cup (IF AllK2({"int"}) THEN {"ints"} ELSE {})
               \cup (IF AllK2({"int"}) /\ \A i \in 1..(Len(arr) - 1) : arr[i + 1].v = arr[i].v + 1 THEN {"range"} ELSE {})
               \cup (IF AllK2({"str"}) THEN {"strings"} ELSE {})
